@@ -54,4 +54,8 @@ CLAIMED["C12"] = dict(
   text="Generated device parameters x registers/layouts built at, just inside and just outside each geometric limit, judged by an own predicate with an unspecified band equal to the coordinate precision, incl. the reported culprits; closure of max_connectivity / with_automatic_layout under validate_register; construction + spec text of every valid parameter combination. Exploration.",
   note="Trusted: numpy float64 norms. Unspecified band: pair distance in [min-2e-6,min), radius within 1e-12 relative of the limit.",
   technique="property-based testing: boundary-biased generated inputs against a validity predicate; closure/metamorphic checks")
+CLAIMED["C17"] = dict(
+  text="Generated NoiseModels, devices, registers/layouts/detuning maps, EmulationConfig/QutipConfig (all default observables, states, operators) and Results: own jsonschema validation with the schema files on disk, decode(encode(x)) == x field by field, idempotent re-encode, NoiseModel<->SimConfig parameter equality, no change of existing instances when new ones are built. Exploration.",
+  note="Trusted: jsonschema/referencing and the schema files; Python json float round trip; Results values compared after JSON normalisation.",
+  technique="property-based testing: generated objects, round-trip and metamorphic (aliasing) oracles")
 NOT_YET = {}
